@@ -29,6 +29,11 @@ type ConstFuncParamAnnotator struct {
 	// wether the currently tracked parameters are still considered constant
 	currentParams map[*ast.VarDecl]bool
 	currentDecl   *ast.FuncDecl
+	// wether the body of currentDecl is being visited (false between a forward declaration and its definition)
+	inBody bool
+	// functions whose body was visited completely
+	// the result for any other function is still an assumption and not used for calls to it
+	finished map[*ast.FuncDecl]struct{}
 }
 
 var (
@@ -54,6 +59,14 @@ func (a *ConstFuncParamAnnotator) ShouldVisit(node ast.Node) bool {
 }
 
 func (a *ConstFuncParamAnnotator) VisitFuncDecl(decl *ast.FuncDecl) ast.VisitResult {
+	if a.finished == nil {
+		a.finished = make(map[*ast.FuncDecl]struct{}, 8)
+	}
+	// instantiations are never marked, they are visited in no particular order
+	if a.currentDecl != nil && a.inBody && !ast.IsGenericInstantiation(a.currentDecl) {
+		a.finished[a.currentDecl] = struct{}{}
+	}
+	delete(a.finished, decl)
 	a.currentDecl = nil
 
 	if ast.IsGeneric(decl) {
@@ -100,6 +113,7 @@ func (a *ConstFuncParamAnnotator) VisitFuncDecl(decl *ast.FuncDecl) ast.VisitRes
 	}
 	decl.Module().Ast.AddAttachement(decl, attachement)
 	a.currentDecl = decl
+	a.inBody = !ast.IsForwardDecl(decl)
 
 	return ast.VisitRecurse
 }
@@ -107,7 +121,9 @@ func (a *ConstFuncParamAnnotator) VisitFuncDecl(decl *ast.FuncDecl) ast.VisitRes
 // the body of a forward declared function is analysed with the parameters of that function,
 // not with those of the function that happened to be declared last
 func (a *ConstFuncParamAnnotator) VisitFuncDef(def *ast.FuncDef) ast.VisitResult {
-	return a.VisitFuncDecl(def.Func)
+	result := a.VisitFuncDecl(def.Func)
+	a.inBody = true
+	return result
 }
 
 func (a *ConstFuncParamAnnotator) VisitFuncCall(call *ast.FuncCall) ast.VisitResult {
@@ -145,8 +161,12 @@ func (a *ConstFuncParamAnnotator) visitOverload(overload *ast.OperatorOverload) 
 
 func (a *ConstFuncParamAnnotator) visitCall(fun *ast.FuncDecl, args map[string]ast.Expression) {
 	var isConst map[string]bool
-	if attachement, ok := a.CurrentModule.Ast.GetMetadataByKind(fun, ConstFuncParamMetaKind); ok {
-		isConst = attachement.(ConstFuncParamMeta).IsConst
+	// a recursive call, or a call to a function that is only declared so far, sees parameters
+	// that are still assumed to be constant and might turn out not to be
+	if _, ok := a.finished[fun]; ok {
+		if attachement, ok := a.CurrentModule.Ast.GetMetadataByKind(fun, ConstFuncParamMetaKind); ok {
+			isConst = attachement.(ConstFuncParamMeta).IsConst
+		}
 	}
 
 	currentParams := maps.Keys(a.currentParams)
